@@ -701,4 +701,66 @@ def rule_no_error_after_output(ctx):
     r.floor(1)
 
 
-RULES = [rule_sentinel_divergence, rule_eof_divergence, rule_null_links_immutable, rule_sentinel_not_freed, rule_no_throw, rule_text_index, rule_bounded_copy, rule_exit_discipline, rule_no_error_after_output]
+def rule_width_no_wrap(ctx):
+    """uncrustify_file() repeats align/indent/do_code_width() `while (old_changes != cpd.changes)` with no bound of its own
+    (debug_max_number_of_loops is off by default): the pass must stop asking for a split once nothing is too wide.  A column
+    computed by an unsigned subtraction that wraps is `past the width` on every round, split_line() counts a change every time
+    and the loop never ends"""
+    from ..bounds import Bounds
+    from ..flow import ReachingDefs, var_id
+    db = ctx.db
+    r = ctx.rule("width-no-wrap", "in the code_width pass (src/width.cpp) no unsigned subtraction whose result is ordered against another value "
+                 "(<, >, <=, >=; directly or through a local) can wrap: interval facts (uv/bounds.py) give lb(minuend) >= ub(subtrahend)")
+    loop = db.fn("uncrustify_file", file=UNC)
+    r.require(len(db.calls_in(loop, "do_code_width")) >= 1, "uncrustify_file no longer calls do_code_width()")
+    n_sub = 0
+    for f in sorted(db.funcs.values(), key=lambda g: (g.file, g.l0)):
+        if f.file != "src/width.cpp":
+            continue
+        rd = None
+        ordered = [c for c in f.all_nodes() if c["k"] == "bin" and c["op"] in ("<", ">", "<=", ">=")]
+        for n in f.all_nodes():
+            if n["k"] != "bin" or n["op"] != "-":
+                continue
+            B = Bounds(db, f, n["i"])
+            B.interval(n["i"])
+            mine = [u for u in B.underflow if u[0] == n["i"]]
+            if not mine:
+                continue                                   # signed arithmetic
+            # is the value ordered against something?  (operand of an ordering comparison, or stored into a local that is)
+            users = set()
+            stack, seen = [n["i"]], set()
+            while stack:
+                x = stack.pop()
+                if x in seen:
+                    continue
+                seen.add(x)
+                for p in f.parents().get(x, ()):
+                    pn = f.nodes[p]
+                    if pn["k"] == "bin" and pn["op"] in ("<", ">", "<=", ">="):
+                        users.add(p)
+                    elif pn["k"] in ("cast", "cond") or (pn["k"] == "bin" and pn["op"] in ("+", "-")):
+                        stack.append(p)
+                    elif pn["k"] == "decl":
+                        for v in pn["vars"]:
+                            if v.get("init") in seen or v.get("init") == x:
+                                for c in ordered:
+                                    for side in c["a"]:
+                                        sn = f.nodes.get(side)
+                                        while sn is not None and sn["k"] == "cast":
+                                            sn = f.nodes.get(sn["a"][0])
+                                        if sn is not None and sn["k"] == "ref" and sn.get("n") == v["n"]:
+                                            users.add(c["i"])
+            if not users:
+                continue
+            n_sub += 1
+            r.seen()
+            r.check(mine[0][1], "%s/%s" % (f.qn.split("::")[-1], expr_str(f, n["i"])), db.loc(f, n),
+                    "`%s` is unsigned and nothing bounds the minuend from below (interval %s minus %s): for an empty chunk in column 0 it wraps "
+                    "to SIZE_MAX and `%s` holds on every round of the code_width loop" % (expr_str(f, n["i"]), mine[0][2], mine[0][3],
+                                                                                       expr_str(f, sorted(users)[0])))
+    r.require(n_sub >= 1, "no ordered unsigned subtraction found in src/width.cpp (is_past_width changed shape)")
+    r.floor(1)
+
+
+RULES = [rule_sentinel_divergence, rule_eof_divergence, rule_null_links_immutable, rule_sentinel_not_freed, rule_no_throw, rule_text_index, rule_bounded_copy, rule_exit_discipline, rule_no_error_after_output, rule_width_no_wrap]
